@@ -120,15 +120,16 @@ fn all_probes() -> Vec<(String, String, Vis, String, String)> {
             }
         }
     }
-    // module mode: pub(super) / pub(in ..) are documented as unsupported (don't-care)
-    for v in [Vis::Private, Vis::Pub, Vis::PubCrate] {
+    // module mode: `pub(super)` names another scope inside the module than next to it (outside the quantifier: don't-care);
+    // an absolute `pub(in path)` means the same in both places and is probed
+    for v in [Vis::Private, Vis::Pub, Vis::PubCrate, Vis::PubInA] {
         for iv in ["", "pub "] {
             for s in SITES {
                 out.push(("mod".to_string(), String::new(), v, iv.to_string(), s.to_string()));
             }
         }
     }
-    for v in [Vis::Private, Vis::Pub, Vis::PubCrate] {
+    for v in [Vis::Private, Vis::Pub, Vis::PubCrate, Vis::PubInA] {
         for iv in ["", "pub "] {
             for s in SITES {
                 out.push(("mod_path".to_string(), String::new(), v, iv.to_string(), s.to_string()));
@@ -166,11 +167,11 @@ fn compile_single_with(src: &str, xlib: Option<String>) -> Result<(), String> {
 }
 
 pub fn run(ctx: &mut Ctx) {
-    ctx.rule = "the complete lattice {fn x requested {none, pub, pub(crate), pub(super), pub(in path)} x fn visibility {none, pub, pub(crate)}} + {mod x requested {none, pub, pub(crate)} x mod \
+    ctx.rule = "the complete lattice {fn x requested {none, pub, pub(crate), pub(super), pub(in path)} x fn visibility {none, pub, pub(crate)}} + {mod x requested {none, pub, pub(crate), pub(in path)} x mod \
                 visibility {none, pub}, named through the re-export and through the module path} + {trait, static and ref delegation (delegation-target trait) x trait visibility (5) x visibility keyword written before the target trait's name {none, pub, pub(crate)}} x 6 access sites (defining module, child, sibling, uncle, case root, cousin) + the same lattice points in a library crate named from a second crate (7th site); one compiled probe \
                 per point; non-trivial = probes expected to be rejected (the trait must not be wider than requested) - counted distinct by (mode, visibilities, site)"
         .into();
-    ctx.assumptions.push("don't-cares: module mode with pub(super)/pub(in path) (documented as unsupported), the visibility of the selector trait `DelegateTr`".into());
+    ctx.assumptions.push("don't-cares: module mode with the relative `pub(super)` (it names a different scope inside the module than next to it; outside the quantifier), the visibility of the selector trait `DelegateTr`".into());
     let list = all_probes();
     let mut batch = Batch::new("c13", Opts { feature_unimock: false, members: 16, check_only: true, ..Default::default() });
     let mut probes: Vec<Probe> = vec![];
